@@ -62,7 +62,7 @@ def setup_worker(tier=None):
 
 def cases(tier, seed):
   out = []
-  nrep = 12 if tier == 'quick' else 48
+  nrep = 12 if tier == 'quick' else 400
   for name in E.SUPERVISED_WEAK:
     dss = common.ds_specs(seed, 'C08' + name, nrep,
                           dmax=4 if tier == 'quick' else 7)
